@@ -26,6 +26,9 @@ RULES = {
     "C21.6": "recovery can get past every record (= C03.3 on the vendored engine copy): read_all reads with a 10 MiB byte budget, so the engine's batch read must widen its first "
              "planned range to the size of the entry at the cursor; otherwise a record larger than the budget is never returned, read_all sees two empty batches and stops in front "
              "of it, and that record and every acknowledged record behind it are missing after a restart",
+    "C21.7": "the recovery read resumes where it stopped (= C01.8 on the vendored engine copy): read_all recovers in consecutive batch reads, each starting at the cursor the "
+             "previous one committed; the two halves of that cursor - (chain index, offset) and (tail block id, tail offset) - are assigned together wherever the batch read "
+             "assigns one of them. A log that spans several blocks is otherwise recovered with a whole block of acknowledged records missing",
     "C21.4": "peer addresses: in persist_peer_addr_if_needed the map insert and the `needs persist` flag are set together, and the flag's then-branch `?`-propagates "
              "append_peer_addr_record; load_peer_addr_records and recover_from_wal both read through WriteAheadLog::read_all (so C21.1 covers both)",
 }
@@ -284,6 +287,8 @@ def check_engine_recovery_verifies(ctx):
     check_recovery_verifies(ctx, facts, rid="C21.5")
     from .c03 import check_first_entry_widening
     check_first_entry_widening(ctx, facts, rid="C21.6")
+    from .c01 import check_cursor_pairs
+    check_cursor_pairs(ctx, facts, rid="C21.7")
 
 
 def run(ctx):
